@@ -41,13 +41,20 @@ func New(root *expr.RootExpr) *OpenAPI {
 	var (
 		bodies, types = buildBodyTypes(root.API)
 
-		info     = buildInfo(root.API)
-		comps    = buildComponents(root, types)
-		servers  = buildServers(root.API.Servers)
-		paths    = buildPaths(root.API.HTTP, bodies, root.API)
-		security = buildSecurityRequirements(root.API.Requirements)
-		tags     = buildTags(root.API)
+		info    = buildInfo(root.API)
+		comps   = buildComponents(root, types)
+		servers = buildServers(root.API.Servers)
+		paths   = buildPaths(root.API.HTTP, bodies, root.API)
+		tags    = buildTags(root.API)
 	)
+
+	// The API level requirements are not listed at the top of the document:
+	// each operation lists its effective requirements, with schemes named
+	// after the location the endpoint gives them (names the API level
+	// requirements do not have and the document thus does not declare). A top
+	// level requirement would also apply to the operations that use
+	// NoSecurity, which list none.
+	var security []map[string][]string
 
 	return &OpenAPI{
 		OpenAPI:    OpenAPIVersion,
